@@ -9,3 +9,4 @@ import Helm.Props.C19
 import Helm.Props.C17
 import Helm.Props.C15
 import Helm.Props.C14
+import Helm.Props.C05
